@@ -24,6 +24,8 @@ change a *declaration* instead.  Each lint below decides one such mechanism as a
                        variables and only runs after the iteration (task, callback, stored): it sees the last iteration
   rebound-constant     a module-level name bound twice with an import-time use in between (a table built at import
                        captured the first object, functions that look the name up later get the second)
+  hand-memo            a hand-written memo that keeps the (mutable) result of a call in a container outliving the call
+                       and hands the remembered object, or a shallow copy of it, back to every caller with equal inputs
   table-concat         two adjacent string literals on one line inside a collection literal of strings (a lost
                        comma fuses two rows of a table)
 
@@ -589,9 +591,144 @@ def _owner_name(node) -> str:
     return ".".join(reversed(names)) or "<module>"
 
 
+# ---------------------------------------------------------------------------------------- hand-memo
+SHALLOW_COPIERS = {"copy.copy", "dict", "list", "set", "tuple"}
+
+
+def _persistent_containers(fn_node, mod: Module) -> Set[str]:
+    """names / paths inside the function that denote a container outliving the call: self./cls. attributes, module-level
+    mutables, and locals bound to one of those (directly, through cls.__dict__.get / getattr / setdefault, or through a
+    same-module helper whose returns are such objects)"""
+    mod_mut = {st.targets[0].id for st in mod.tree.body if isinstance(st, ast.Assign) and len(st.targets) == 1 and
+               isinstance(st.targets[0], ast.Name) and _is_mutable_value(st.value)}
+    helpers = {}
+    for n in ast.walk(mod.tree):
+        if isinstance(n, (ast.FunctionDef, ast.AsyncFunctionDef)):
+            helpers.setdefault(n.name, n)
+
+    def persistent_expr(e, local, depth=0) -> bool:
+        path = ap(e)
+        if path:
+            head = path.split(".")[0]
+            if "." in path and head in ("self", "cls"):
+                return True
+            if path in mod_mut or path in local:
+                return True
+        if isinstance(e, ast.Call):
+            fn = ap(e.func) or ""
+            if fn.endswith("__dict__.get") or fn.endswith("__dict__.setdefault") or fn in ("getattr", "vars"):
+                return True
+            if isinstance(e.func, ast.Attribute) and e.func.attr in ("setdefault", "get") and persistent_expr(e.func.value, local):
+                return False       # an element of a persistent container, not the container
+            name = e.func.attr if isinstance(e.func, ast.Attribute) else (e.func.id if isinstance(e.func, ast.Name) else None)
+            h = helpers.get(name)
+            if h is not None and depth < 2 and h is not fn_node:
+                hl: Set[str] = set()
+                _collect(h, hl, depth + 1)
+                rets = [r.value for r in walk(h) if isinstance(r, ast.Return) and r.value is not None]
+                return bool(rets) and all(persistent_expr(r, hl, depth + 1) for r in rets)
+        return False
+
+    def _collect(f, local: Set[str], depth=0):
+        for _ in range(2):
+            for st in stores(f, into_defs=False):
+                if st.kind == "assign" and st.value is not None and "." not in st.path and persistent_expr(st.value, local, depth):
+                    local.add(st.path)
+    out: Set[str] = set()
+    _collect(fn_node, out)
+    return out
+
+
+def hand_memo(repo: Repo, rels: Iterable[str]) -> List[Finding]:
+    """A hand-written memo: the function stores the result of a call into a container that outlives the call, keyed by
+    its inputs, and hands the stored object (or a shallow copy of it) back.  Every caller that asks with equal inputs
+    then shares the nested mutable values of one result - an in-place edit by one of them changes what the others (and
+    every later decode) see.  Returning `copy.deepcopy(..)` of the entry, or caching only on a path the caller selects
+    through a parameter, is not reported."""
+    out: List[Finding] = []
+    for rel in rels:
+        mod = repo.modules.get(rel)
+        if mod is None:
+            continue
+        for fn in ast.walk(mod.tree):
+            if not isinstance(fn, (ast.FunctionDef, ast.AsyncFunctionDef)):
+                continue
+            params = {a.arg for a in fn.args.posonlyargs + fn.args.args + fn.args.kwonlyargs}
+            local = _persistent_containers(fn, mod)
+            entries = []
+            for st in stores(fn, into_defs=False):
+                if st.kind != "setitem" or st.value is None:
+                    continue
+                cont = st.path
+                if not (cont in local or (cont.split(".")[0] in ("self", "cls") and "." in cont)):
+                    continue
+                v = st.value
+                src_call = v if isinstance(v, ast.Call) else None
+                if isinstance(v, ast.Name):
+                    for s2 in stores(fn, into_defs=False):
+                        if s2.kind == "assign" and s2.path == v.id and isinstance(s2.value, ast.Call):
+                            src_call = s2.value
+                if src_call is None:
+                    continue
+                callee = (ap(src_call.func) or "").split(".")[-1]
+                if callee in ("deepcopy", "bytes", "str", "int", "float", "bool", "tuple", "frozenset", "len", "hash", "id"):
+                    continue
+                key_names = {n.id for n in ast.walk(st.target.slice) if isinstance(n, ast.Name)} if isinstance(st.target, ast.Subscript) else set()
+                # keyed by the function's inputs (directly or through a local computed from them)
+                derived = set(params)
+                for _ in range(3):
+                    for s2 in stores(fn, into_defs=False):
+                        if s2.kind == "assign" and s2.value is not None and "." not in s2.path and \
+                                {n.id for n in ast.walk(s2.value) if isinstance(n, ast.Name)} & derived:
+                            derived.add(s2.path)
+                if not (key_names & derived):
+                    continue
+                entries.append((cont, st, v))
+            for cont, st, v in entries:
+                for r in walk(fn):
+                    if not isinstance(r, ast.Return) or r.value is None:
+                        continue
+                    e = r.value
+                    shallow = False
+                    if isinstance(e, ast.Call) and ((ap(e.func) or "") in SHALLOW_COPIERS or
+                                                    (isinstance(e.func, ast.Attribute) and e.func.attr == "copy" and not e.args)):
+                        shallow = True
+                        e = e.args[0] if e.args else e.func.value
+                    hands = False
+                    if isinstance(e, ast.Subscript) and ap(e.value) == cont:
+                        hands = True
+                    elif isinstance(e, ast.Call) and isinstance(e.func, ast.Attribute) and e.func.attr == "get" and ap(e.func.value) == cont:
+                        hands = True
+                    elif isinstance(v, ast.Name) and isinstance(e, ast.Name) and e.id == v.id and r.lineno > st.node.lineno:
+                        hands = True
+                    if not hands:
+                        continue
+                    inst_alias = any(s2.kind == "assign" and s2.path == cont and (ap(s2.value) or "").split(".")[0] == "self"
+                                     for s2 in stores(fn, into_defs=False))
+                    if (cont.split(".")[0] == "self" or inst_alias) and not shallow:
+                        # per-instance stores that hand their entries out are registries of shared entities (name cache,
+                        # parcels, certificates): sharing is their purpose.  Only process-wide containers, or an entry that is
+                        # copied (so the author meant callers to own the result) but only one level deep, are memos.
+                        continue
+                    # a return the caller selects through a parameter (make_copy=False and the like) is the caller's choice
+                    from .core import conditions as _conds
+                    if any({n.id for n in ast.walk(c.test) if isinstance(n, ast.Name)} & params and
+                           not ({n.id for n in ast.walk(c.test) if isinstance(n, ast.Name)} & (key_names | {cont}))
+                           and any(isinstance(n, ast.Name) and n.id in params and n.id.startswith(("make_", "copy", "deep", "share"))
+                                   for n in ast.walk(c.test))
+                           for c in _conds(r, fn)):
+                        continue
+                    out.append((mod, r, f"{_owner_name(fn)}: entry of {cont}",
+                                f"{_owner_name(fn)} remembers the result of `{ast.unparse(v)[:60]}` in {cont} and returns "
+                                f"{'a shallow copy of ' if shallow else ''}the remembered object: callers with equal inputs share its "
+                                f"nested mutable values"))
+                    break
+    return out
+
+
 LINTS = (("loop-closure", loop_closure), ("rebound-constant", rebound_constant), ("shared-class-state", shared_class_state), ("stateful-cache", stateful_cache),
          ("override-signature", override_signature), ("copy-protocol", copy_protocol),
-         ("builtin-eq-ne", builtin_eq_ne), ("format-arity", format_arity), ("table-concat", table_concat))
+         ("builtin-eq-ne", builtin_eq_ne), ("format-arity", format_arity), ("table-concat", table_concat), ("hand-memo", hand_memo))
 
 
 def struct_obligations(ctx, rule_id: str, rels: Iterable[str]):
